@@ -11,9 +11,9 @@ HARNESS = ["vdr/didnuts/zz_verif_c09_test.go"]
 REQUIRED = ["accepted_create_sound", "accepted_create_signed_by_did_key", "accepted_update_sound",
             "accepted_update_signed_by_controller_key", "callback_accepts_iff", "resolvable_only_if_accepted", "rejected_inert", "accepted_changes_own_did_only",
             "controller_chain_bounded", "controller_cycle_refused", "deactivated_controller_rejected",
-            "controllers_never_deactivated", "controller_versions_are_active", "validator_rules_partial", "validator_rules_embedded_witness", "removed_key_rejected", "removed_key_rejected_self_controlled",
+            "controllers_never_deactivated", "controller_versions_are_active", "validator_rules_partial", "validator_rules_embedded_witness", "deactivated_controller_latest_witness", "removed_key_rejected", "removed_key_rejected_self_controlled",
             "validator_rules_sound_complete", "validator_rules_each_necessary",
-            "fact_network_validators", "fact_thumbprint_from_key_material", "fact_entry_id_checks", "fact_validator_scope", "fact_max_controller_depth",
+            "fact_network_validators", "fact_wiring", "fact_call_sites", "fact_comparisons", "fact_thumbprint_from_key_material", "fact_entry_id_checks", "fact_validator_scope", "fact_max_controller_depth",
             "fact_resolve_conditions", "fact_controller_skips", "fact_create_update_split", "fact_callback_steps",
             "fact_store_calls", "fact_update_steps", "fact_ambassador_controller_resolution", "fact_key_resolver"]
 
@@ -28,6 +28,23 @@ def stored_docs(obs):
         ctrl = [x.split("=")[0] for x in m.group(2).split(",") if x]
         keys = [x.split("=", 1)[1] for x in m.group(4).split(",") if "=" in x]
         out.setdefault(m.group(1), []).append((ctrl, keys))
+    return out
+
+
+def latest_deactivated(obs):
+    """DIDs whose LATEST version (Resolve with AllowDeactivated, no other filter) is flagged deactivated"""
+    parts = obs.split(" || ")
+    table = {}
+    for t in parts[1:]:
+        k, _, v = t.partition("=")
+        table[k] = v
+    out, cur = set(), None
+    for seg in parts[0].split(" | "):
+        if seg.startswith("DID "):
+            cur = seg[4:]
+        elif seg.startswith("ad:") and cur:
+            if "deact=true" in table.get(seg[3:], ""):
+                out.add(cur)
     return out
 
 
@@ -134,7 +151,7 @@ def run(ctx):
     # ---- direct property oracles on the implementation's own outputs
     kinds, classes, labels = Counter(), Counter(), Counter()
     distinct = set()
-    n_pairs = n_ok = n_embedded_illformed = 0
+    n_pairs = n_ok = n_embedded_illformed = n_deactivated_controller = 0
     oracle = Counter()
     cur_obs = ""
     reported = {}
@@ -221,6 +238,20 @@ def run(ctx):
                     for cdid in ctrl:
                         if cdid != doc["id"] and any(tx["signer"] in keys for _, keys in docs.get(cdid, [])):
                             okk = True
+            # clause "keys of deactivated controllers": every DID that lists the signing key for this update is a foreign
+            # controller whose latest version is deactivated at the time of the delivery
+            sources = set()
+            if any(tx["signer"] in keys for ctrl, keys in mine if not ctrl or doc["id"] in ctrl):
+                sources.add(doc["id"])
+            for ctrl, _ in mine:
+                for cdid in ctrl:
+                    if cdid != doc["id"] and any(tx["signer"] in keys for _, keys in docs.get(cdid, [])):
+                        sources.add(cdid)
+            if sources and doc["id"] not in sources and sources <= latest_deactivated(prev_obs):
+                n_deactivated_controller += 1
+                report("accepted-update-by-key-of-deactivated-controller",
+                       "update accepted although every controller that lists the signing key is deactivated at the time of the delivery "
+                       "(the transaction's prevs name the controller's pre-deactivation transaction): " + ",".join(sorted(sources)), i)
             if not okk:
                 report("accepted-update-by-unlisted-key", "update accepted although the signing key is not listed for capabilityInvocation by a controller: "
                        "neither by a self-controlling stored version of the DID (no controller entries / lists itself) nor by a stored "
@@ -272,5 +303,6 @@ def run(ctx):
     ctx.cov["input_distribution"] = {"histories": sum(labels.values()), "history_kinds": dict(sorted(labels.items())),
                                      "pair_kinds": dict(sorted(kinds.items())), "outcome_classes": dict(sorted(classes.items())),
                                      "accepted": n_ok, "rejected": n_pairs - n_ok,
-                                     "accepted_with_ill_formed_embedded_method(known finding)": n_embedded_illformed}
+                                     "accepted_with_ill_formed_embedded_method(known finding)": n_embedded_illformed,
+                                     "accepted_update_by_key_of_deactivated_controller(known finding)": n_deactivated_controller}
     ctx.cov["samples"] = [impl[1][:300] if len(impl) > 1 else "", impl[2][:300] if len(impl) > 2 else ""]
